@@ -123,11 +123,27 @@ ADD3 = {
  "C19": "; find_workflow twice in one process; characters that are not control characters are legal; the pool starts the task in the directory it was sent",
  "C20": "; the group callback does not write the configuration file; switch names in the config session",
 }
+# rules added in DESIGN 9.14 / 9.15 (rounds 9 and 10)
+ADD4 = {
+ "C04": "; a directory is an existing input",
+ "C07": "; a failing state query is not an answer (C09.R3 imported)",
+ "C09": "; every command runner of backends.utils (call and its siblings) applies the failure test; no time limit reaches a submit or cancel command through any runner; a failing query stops the construction of the backend; the recorded id is the one looked up (C08.R2)",
+ "C10": "; None / 0 / '' given at a higher level win; the cd goes to the target's directory",
+ "C11": "; what has been waited for when the process starts (FIRST_COMPLETED loops included); enqueue_task evaluated on a populated pool when it assigns a parameter",
+ "C12": "; unknown counting parameters of the task coroutine (several cores per task): balanced, bounded by the pool, no hold-and-wait",
+ "C13": "; hold-and-wait of cores",
+ "C14": "; no request takes a core out of the pool for good (C12.R2)",
+ "C15": "; no recursive delete",
+ "C16": "; the hashes of exactly the cone are recorded, for every selection",
+ "C19": "; the caller-frame lookup evaluated on a modelled call stack; a path reaches messages only (display) vs decisions",
+ "C20": "; the named settings are accepted by name (further settings allowed); an unknown setting never discards a known one",
+}
 checks = []
 for pid, (text, note, tech) in sorted(P.items()):
     extra = ADD.get(pid)
     text = text + ADD2.get(pid, "")
     text = text + ADD3.get(pid, "")
+    text = text + ADD4.get(pid, "")
     if extra:
         text = text + extra[0]
         if extra[1]:
